@@ -383,13 +383,10 @@ def check(ctx):
                     raise core.Machinery("specification no longer exposes the %s defect of 7.0.0" % expect)
     # (2) transition tours
     pc = None if thorough else 2
-    ga = dump(ctx, "dump-1pid-2obj", consts({1}, {1, 2}, 2, 1, sigs=(9,), setters=("nice",)))
-    ops = replay_graph(ctx, "dump-1pid-2obj", ga, per_class=pc)
-    gb = dump(ctx, "dump-2pid-1obj", consts({1, 2}, {1}, 2, 1, sigs=(15,), setters=("rlimit",)))
-    ops2 = replay_graph(ctx, "dump-2pid-1obj", gb, per_class=pc)
-    g0 = dump(ctx, "dump-pid0", consts({0, 1}, {1}, 2, 1, sigs=(9, 15, 19, 18, 10), setters=()))
-    ops3 = replay_graph(ctx, "dump-pid0", g0, per_class=pc)
-    allops = set(ops) | set(ops2) | set(ops3)
+    allops = set()
+    for name, c in DUMPS:
+        g = dump(ctx, name, c())
+        allops |= set(replay_graph(ctx, name, g, per_class=pc))
     need = {"signal:ok", "signal:NSP", "set:ok", "set:NSP", "is_running:True", "is_running:False",
             "eq:True", "eq:False", "new:ok", "new:NSP", "ppid:NSP", "signal:ValueError"}
     if need - allops:
@@ -397,6 +394,18 @@ def check(ctx):
     # (3) deep random behaviours of a larger configuration
     cs = consts({1, 2, 3}, {1, 2, 3}, 6, 4, sigs=(9, 15, 19, 18, 1), setters=allsetters)
     replay_sim(ctx, "simulate-3pid-3obj", cs, 4000 if thorough else 600, 40)
+
+
+DUMPS = [
+    ("dump-1pid-2obj", lambda: consts({1}, {1, 2}, 2, 1, sigs=(9,), setters=("nice",))),
+    ("dump-2pid-1obj", lambda: consts({1, 2}, {1}, 2, 1, sigs=(15,), setters=("rlimit",))),
+    ("dump-pid0", lambda: consts({0, 1}, {1}, 2, 1, sigs=(9, 15, 19, 18, 10), setters=())),
+]
+
+
+def warm(ctx):
+    for name, c in DUMPS:
+        dump(ctx, name, c())
 
 
 def main(prop, argv):
